@@ -108,6 +108,11 @@ def plan(tier, big=None):
         if not quick:
             out.append(("manyblocks", "str", 1, "default"))
             out.append(("deepblocks", "str", 1, "noaggend"))
+    # strings that spell a keyword of SOME dialect (the ISIS grammar has no BEGIN_ forms, the default loader has)
+    for w in ("BEGIN_GROUP", "BEGIN_OBJECT", "END_GROUP", "End_Object", "OBJECT", "GROUP", "END", "NULL", "TRUE", "FALSE"):
+        out.append(("single", "kw:" + w, 0, "default"))
+        if not quick or w in ("BEGIN_GROUP", "END", "NULL"):
+            out.append(("seq", "kw:" + w, 0, "default"))
     out.append(("wrapunits", "int", 2, "default"))
     out.append(("wrapunits", "int", 2, "narrow"))
     for cfg in list(rt.CONFIGS) + list(rt.PVL_ONLY) + list(rt.PDS_ONLY):
